@@ -248,6 +248,7 @@ def cargo_parse(cargo_ver: str) -> T.Callable[[str], bool]:
                 return False
         return True
 
-    if not out:
+    if not out and not cargo_ver.strip():
+        # No requirement at all
         return lambda v: True
     return compare
